@@ -32,7 +32,8 @@ CFGS = {
     # ---- data path / save protocol --------------------------------------------------------------------------
     "MCDataQ": mc(DATA, MaxAcks="1"),
     "MCDataQ2": mc(DATA, MaxSaves="1"),
-    "MCData": mc(DATA, Savers='{"p", "c"}'),
+    "MCData": mc(DATA, Savers='{"p", "c"}', MaxAcks="1"),
+    "MCData2": mc(DATA),
     "MCDataF1": mc(DATA, Savers='{"p", "c"}', MaxSaves="3", MaxAcks="3", Bugs='{"F1"}'),   # expected to violate C05 (pre-fix model)
     "MCDataF7": mc(DATA, Bugs='{"F7"}'),                                                   # expected to violate C05 (pre-fix model)
     "SimData": simc(DATA, 48, Savers='{"p", "c"}', MaxSaves="4", MaxAcks="4"),
@@ -45,7 +46,8 @@ CFGS = {
     # ---- lifecycle ------------------------------------------------------------------------------------------
     "MCLifeQ": mc(LIFE, MaxNotify="2", MaxEnds="0", MaxSaves="0", MaxAcks="0"),
     "MCLifeQ2": mc(LIFE, MaxNotify="1", MaxEnds="2", MaxSaves="0", MaxAcks="1"),
-    "MCLife": mc(LIFE),
+    "MCLife": mc(LIFE, MaxEnds="1"),
+    "MCLife2": mc(LIFE, MaxNotify="1"),
     "MCLifeF5": mc(LIFE, Bugs='{"F5"}', MaxEnds="0", MaxSaves="0", MaxAcks="0", AllowClose="FALSE"),   # expected to violate C11
     "MCLifeF2": mc(LIFE, Bugs='{"F2"}', MaxNotify="1", MaxEnds="0", MaxSaves="0", MaxAcks="0"),        # expected to violate C13
     "MCLifeGaps": mc(LIFE, Gaps=GAPS, MaxNotify="1", MaxSaves="0", MaxAcks="0"),                       # expected to violate (F6, F8)
@@ -82,7 +84,7 @@ CFGS = {
     "MCRm": mc(GEN, RM="TRUE", Slots="3", MaxSeq="2", Kinds='{"mut", "adv"}', Keys='{"user"}', OldEvents="FALSE", BadEvents="FALSE",
                Rollbacks="FALSE", MaxCrash="0", MaxSaves="0", MaxAcks="0", AllowClose="TRUE", Focus="TRUE"),
     "MCRm2": mc(GEN, RM="TRUE", Slots="2", MaxSeq="3", Kinds='{"mut", "sys", "adv"}', Keys='{"user"}', OldEvents="FALSE", BadEvents="FALSE",
-                Rollbacks="FALSE", MaxCrash="0", MaxSaves="1", MaxAcks="1", AllowClose="TRUE", Focus="TRUE", RmUuids="{1}"),
+                Rollbacks="FALSE", MaxCrash="0", MaxSaves="0", MaxAcks="1", AllowClose="TRUE", Focus="TRUE", RmUuids="{1}"),
     "SimRm": simc(GEN, 50, RM="TRUE", Slots="3", MaxSeq="3", NVB="2", Kinds='{"mut", "sys", "adv"}', Keys='{"user"}', OldEvents="FALSE",
                   BadEvents="FALSE", Rollbacks="FALSE", MaxCrash="0", MaxSaves="1", MaxAcks="2", AllowClose="TRUE", Focus="TRUE"),
     "SimRm2": simc(GEN, 44, RM="TRUE", Slots="2", RmUuids="{1}", MaxSeq="3", Kinds='{"mut", "del", "sys", "adv"}', Keys='{"user"}', OldEvents="FALSE",
